@@ -38,7 +38,7 @@ META = dict(
     outside="float overflow / 0*inf in masked branches (d_R**5, tanh(inf*x)): only the real-arithmetic definedness is claimed; "
             "arrays larger than the listed shapes; values of the smoothed projection in cells with an interface",
     bounds=dict(quick=dict(smoothed_shapes=[(3, 3)], resolutions=[20.0], wrapper_shapes=[(3, 1, 3)]),
-                thorough=dict(smoothed_shapes=[(3, 3), (3, 4), (2, 3)], resolutions=[20.0, 1.0, 37.5], wrapper_shapes=[(3, 1, 3), (1, 3, 3), (3, 3, 1)])),
+                thorough=dict(smoothed_shapes=[(3, 3), (3, 4), (2, 3), (4, 4)], resolutions=[20.0, 1.0, 37.5], wrapper_shapes=[(3, 1, 3), (1, 3, 3), (3, 3, 1)])),
     timeout_ms=dict(quick=30000, thorough=120000),
 )
 
